@@ -94,11 +94,12 @@ def cpu_ticks(pid):
         return None
 
 
-def drive(hbin, cases_path, workdir, orders, sd, threads, ncases, results, hangs, errors, silence=SILENCE_S):
+def drive(hbin, cases_path, workdir, orders, sd, threads, ncases, results, hangs, errors, aborted, silence=SILENCE_S):
     """runs `c04 run` for one pool size, restarting after a hang; fills results[(ci,k,threads)]"""
     env = env_base()
     env["RAYON_NUM_THREADS"] = str(threads)
     start = (0, 0)
+    nhung = 0
     while start[0] < ncases:
         p = subprocess.Popen([hbin, "run", cases_path, workdir, str(orders), str(sd), str(start[0]), str(start[1])],
                              stdout=subprocess.PIPE, stderr=subprocess.DEVNULL, env=env)
@@ -147,8 +148,12 @@ def drive(hbin, cases_path, workdir, orders, sd, threads, ncases, results, hangs
             except Exception:
                 pass
             p.wait()
-            nk = cur[1] + 1
-            start = (cur[0], nk) if nk < orders else (cur[0] + 1, 0)
+            # the remaining orders of a hung case are skipped; after three hung cases this pool stops
+            start = (cur[0] + 1, 0)
+            nhung += 1
+            if nhung >= 3:
+                aborted.append(threads)
+                break
             continue
         rc = p.wait()
         if rc != 0:
@@ -161,18 +166,18 @@ def drive(hbin, cases_path, workdir, orders, sd, threads, ncases, results, hangs
 
 
 def run_all(hbin, cases_path, workroot, orders, sd, ncases, pools, silence=SILENCE_S):
-    results, hangs, errors = {}, [], []
+    results, hangs, errors, aborted = {}, [], [], []
     ths = []
     for t in pools:
         wd = os.path.join(workroot, "t%d" % t)
         run("rm -rf '%s'" % wd)
         os.makedirs(wd, exist_ok=True)
-        th = threading.Thread(target=drive, args=(hbin, cases_path, wd, orders, sd, t, ncases, results, hangs, errors, silence))
+        th = threading.Thread(target=drive, args=(hbin, cases_path, wd, orders, sd, t, ncases, results, hangs, errors, aborted, silence))
         th.start()
         ths.append(th)
     for th in ths:
         th.join()
-    return results, hangs, errors
+    return results, hangs, errors, aborted
 
 
 # ----------------------------------------------------------------------------------------------
@@ -269,7 +274,7 @@ def main(tier, replay=None):
 
     # implementation
     t0 = time.time()
-    results, hangs, errors = run_all(hbin, cases_path, os.path.join(d, "proj"), orders, sd, len(cases), pools)
+    results, hangs, errors, aborted = run_all(hbin, cases_path, os.path.join(d, "proj"), orders, sd, len(cases), pools)
     impl_s = time.time() - t0
     for e in errors[:3]:
         res.violation("harness problem: " + e, {"kind": "harness", "detail": e}, no_failing_input=True)
@@ -342,6 +347,11 @@ def main(tier, replay=None):
                               replay_obj(ci, "input", {"threads": h["threads"], "k": h["k"], "hangs": hang_cases[ci]}))
             continue
         runs = {(k, t): results.get((ci, k, t)) for k in range(orders) for t in pools}
+        if aborted:
+            # pools that stopped after three hung cases did not run the later cases
+            runs = {kt: o for kt, o in runs.items() if not (o is None and kt[1] in aborted)}
+            if not runs:
+                continue
         missing = [kt for kt, o in runs.items() if o is None]
         if missing:
             res.violation("no result for some runs of a case (harness problem)",
